@@ -52,7 +52,7 @@ func Profiles() map[string]Profile {
 		RangeKeys: 1, MaxIters: 2, IterCls: "pos", Masks: true, Limits: true})
 	add(Profile{Name: "C08", W: map[string]int{"write": 35, "ingest": 8, "maint": 12, "positer": 10, "posop": 50, "close": 4, "scan": 8},
 		RangeKeys: 5, MaxIters: 2, IterCls: "rk", ScanLatest: true, LatestCls: "rk"})
-	add(Profile{Name: "C09", W: map[string]int{"write": 35, "maint": 12, "positer": 12, "posop": 50, "close": 5, "extingest": 10},
+	add(Profile{Name: "C09", W: map[string]int{"write": 35, "maint": 12, "positer": 12, "posop": 50, "close": 5, "extingest": 8, "extmask": 6},
 		RangeKeys: 4, MaxIters: 2, IterCls: "mask", Masks: true})
 	add(Profile{Name: "C14", W: map[string]int{"write": 35, "ingest": 6, "maint": 30, "snap": 8, "viewiter": 6, "close": 4, "efos": 3, "sdelchain": 4},
 		ReadSnaps: true, ReadIters: true, ScanLatest: true, RangeKeys: 1, MaxSnaps: 2, MaxIters: 2, IterCls: "view"})
@@ -924,6 +924,8 @@ func (g *Gen) Step() {
 		g.actIterOp()
 	case "extingest":
 		g.actExtIngest()
+	case "extmask":
+		g.actExtMask()
 	case "straddle":
 		g.actStraddle()
 	case "sdelchain":
